@@ -351,7 +351,8 @@ where
                     (x, x)
                 };
                 let d = if op.kind == S_INS { op.args[4] } else { op.args[2] };
-                let exp = self.clock.saturating_add((d.rem_euclid(5) - 1) as i32);
+                // d == 9 stands for "never expires": the expiration type's maximum
+                let exp = if d == 9 { i32::MAX } else { self.clock.saturating_add((d.rem_euclid(5) - 1) as i32) };
                 self.insert(i, lo, hi, exp)
             }
             S_QUERY | S_PQUERY | S_QUERYALL => {
